@@ -320,6 +320,33 @@ def retune_event(tdgl, obj, c_units):
     return {"ev": "retune", "who": "orig", "c": c_units, "n": n}
 
 
+STATIC_KW = {"a": 2, "b": 1}      # keyword of the static leaves P2 / P2b (a = 2 s) and P3 / P3b (b = s)
+
+
+def retune_static_event(tdgl, obj, who, s_units):
+    """The keyword argument of every static (time-independent) leaf of the object set in place: b = s, a = 2 s."""
+    s = s_units / Q
+    s = int(s) if s == int(s) else s
+    n = 0
+    for _, node in nodes(obj, tdgl):
+        if isinstance(node, tdgl.parameter.CompositeParameter) or node.time_dependent:
+            continue
+        for name, mult in STATIC_KW.items():
+            if name in node.kwargs:
+                node.kwargs[name] = mult * s
+                n += 1
+    return {"ev": "retune_s", "who": who, "s": s_units, "n": n}
+
+
+def val_form(item):
+    """The (argument form, time) in which the expression answers (ParamAlg.ValForm), or None."""
+    exp = item.get("expect", {})
+    for f, t in (("F3T", 64), ("F3", 0), ("F2", 0)):
+        if exp.get(f) == "val":
+            return f, t
+    return None
+
+
 ARR_PTS = {"arr": (0, 1, 2), "arr2": (2, 0, 1), "arr3": (1, 1, 0),       # ParamAlg.ArgPts (0-based)
            "arrY": (3, 4, 5), "arrZ": (6, 7, 8), "arrI": (9, 10, 11), "i1": (9,), "i2": (10,)}
 # (content, buffer) per call, at one time: the same memory re-delivered with other content, slices and strided views of
@@ -459,6 +486,11 @@ COPY_CALLS = [("F2", 0), ("F3", 0), ("F3T", 192), ("F3T", 64), ("F3T", -128), ("
 # that answers, at one and the same time: c = -1, -2, -1, 2, and back to 1 (what the rest of the exercise assumes)
 RETUNES = [-64, -128, -64, 128, 64]
 RETUNE_CALL = ("F3T", 64)
+# the keyword argument of the static leaves (b = 1 / a = 2 as built) edited in place, each edit followed by a call in the form
+# that answers at one and the same time, a call in that form coming first; back to the built value at the end
+RETUNES_S = [-64, -128, -64, 128, 64]
+COPY_RETUNES_S = [-64, 64]
+STATIC_LEAVES = {"P2", "P2b", "P3", "P3b"}
 
 
 def exercise(tdgl, item, tmp=None):
@@ -503,6 +535,13 @@ def _exercise(tdgl, item, tmp=None):
             for c in RETUNES:
                 ev.append(retune_event(tdgl, obj, c))
                 ev.append(call_event(tdgl, obj, "orig", *RETUNE_CALL))
+        vf = val_form(item)
+        do_static = item.get("retune", "calls" not in item) and vf is not None and bool(kinds(tree) & STATIC_LEAVES)
+        if do_static:
+            ev.append(call_event(tdgl, obj, "orig", *vf))
+            for s in RETUNES_S:
+                ev.append(retune_static_event(tdgl, obj, "orig", s))
+                ev.append(call_event(tdgl, obj, "orig", *vf))
         if item.get("deliver", True):
             ev += deliver_events(tdgl, obj, tree)
     if item.get("clear", True):
@@ -535,6 +574,11 @@ def _exercise(tdgl, item, tmp=None):
         ev.append({"ev": "unpickle", "ok": True, "cls": "", "td": ctd, "eq": ceq})
         for form, t in ([] if shipped else item.get("copy_calls", COPY_CALLS)):
             ev.append(call_event(tdgl, cp, "copy", form, t))
+        if not shipped and item.get("retune", "calls" not in item) and val_form(item) and kinds(tree) & STATIC_LEAVES:
+            ev.append(call_event(tdgl, cp, "copy", *val_form(item)))
+            for s in COPY_RETUNES_S:
+                ev.append(retune_static_event(tdgl, cp, "copy", s))
+                ev.append(call_event(tdgl, cp, "copy", *val_form(item)))
         if item.get("clear", True):
             ev.append(clear_event(tdgl, cp, "copy"))
     return tr
@@ -670,7 +714,7 @@ def validate_parallel(ctx, traces, name, nbatch=4, timeout=900):
 def clause_of(event, violated):
     if violated:
         return ",".join(violated)
-    return {"build": "NestingTotal/TimeDepIffSomeOperand", "eq": "EqIsStructural", "call": "EvalIsPointwise", "retune": "no-matching-action", "deliver": "EvalIsPointwise (array call)",
+    return {"build": "NestingTotal/TimeDepIffSomeOperand", "eq": "EqIsStructural", "call": "EvalIsPointwise", "retune": "no-matching-action", "retune_s": "no-matching-action", "deliver": "EvalIsPointwise (array call)",
             "clear": "ClearCacheTotal", "pickle": "PickleRoundTrip", "unpickle": "PickleRoundTrip",
             "solve": "SolverAcceptsComposite"}.get(event, "no-matching-action")
 
